@@ -1,10 +1,14 @@
 import RasnModel.Lexer.Values
 import RasnModel.Spec.Values
+import RasnModel.Proofs.Values
 /-
   C07 — value assignments and DEFAULTs denote the source abstract value (leaf conversions).
   `hexToBools` and `wellKnown` are REGENERATED from /repo on every run. Composite values
-  (CHOICE / SEQUENCE / SEQUENCE OF), value references and the rendering to Rust expressions are
-  decided by the oracle on the implementation's output (PARTIAL: no model of link_with_type).
+  (CHOICE / SEQUENCE / SET / SEQUENCE OF, nested to any depth, through chains of type references,
+  with DEFAULTs filled in) are modelled in `Link/Values` (the composite arms of `link_with_type`,
+  `link_struct_like`, `link_array_like`) and proved against the relational reading `Denotes` at
+  the end of this file. The rendering of a linked value as a Rust expression is evaluated
+  symbolically by the harness (PARTIAL: no Lean model of `value_to_tokens`).
 -/
 namespace Props.C07
 open Lexer.Values Spec.Values Extracted.Values
@@ -206,5 +210,164 @@ example : bitStringValue 'H' ['A', '5'] = [true, false, true, false, false, true
       [true, false, false, false, false, false, false, true] ∧
     resolveArcs [⟨some "iso", none⟩, ⟨some "standard", none⟩, ⟨none, some 8571⟩] = [.num 1, .num 0, .num 8571] := by
   decide
+
+/-! ### composite values (`Link/Values`) -/
+section Composite
+open Link.Values
+
+mutual
+/-- **every value that links denotes what the notation denotes**: for every governing type (any
+    nesting, any chain of references, any DEFAULTs) and every value notation (any depth, fields in
+    any order), if `link_with_type` succeeds, the linked value — one entry per component in
+    declaration order, DEFAULTs filled in, list elements in order, the named alternative — is the
+    abstract value X.680 gives the notation. -/
+theorem C07_composite_denotes : ∀ (v : SVal) (ty : VTy) (l : LVal), link ty v = some l → Denotes ty v (absL l)
+  | .atom a, ty, l, h => by
+    simp only [link] at h
+    split at h
+    · rename_i sup hs
+      cases h
+      simp only [absL_wrap, absL]
+      exact .atom (core_of_strip hs)
+    · cases h
+  | .choice a v, ty, l, h => by
+    simp only [link] at h
+    split at h
+    · rename_i sup alts hs
+      split at h
+      · rename_i aty ha
+        cases hi : link aty v with
+        | none => simp [hi] at h
+        | some i =>
+          simp [hi] at h
+          subst h
+          simp only [absL_wrap, absL]
+          exact .choice (core_of_strip hs) ha (C07_composite_denotes v aty i hi)
+      · cases h
+    · cases h
+  | .braces fs, ty, l, h => by
+    simp only [link] at h
+    split at h
+    · rename_i sup ms hs
+      split at h
+      · rename_i given hg
+        cases ho : assemble given ms with
+        | none => simp [ho] at h
+        | some out =>
+          simp [ho] at h
+          subst h
+          simp only [absL_wrap, absL]
+          exact .record (core_of_strip hs) (linkGiven_names ms fs given hg)
+            (assemble_denotes ms fs given (C07_given_denotes fs ms given hg) (linkGiven_none ms fs given hg) ms out ho)
+      · cases h
+    · rename_i sup e hs
+      cases hx : linkElems e fs with
+      | none => simp [hx] at h
+      | some xs =>
+        simp [hx] at h
+        subst h
+        simp only [absL_wrap, absL]
+        exact .list (core_of_strip hs) (C07_elems_denote fs e xs hx)
+    · cases h
+/-- list elements: each denotes its notation, in order -/
+theorem C07_elems_denote : ∀ (fs : List SField) (e : VTy) (xs : List LVal), linkElems e fs = some xs →
+    DenotesAll e fs (absList xs)
+  | [], e, xs, h => by
+    simp only [linkElems] at h; cases h; exact .nil
+  | .mk n v :: rest, e, xs, h => by
+    simp only [linkElems] at h
+    split at h
+    · rename_i l r hl hr
+      cases h
+      simp only [absList]
+      exact .cons (C07_composite_denotes v e l hl) (C07_elems_denote rest e r hr)
+    · cases h
+/-- what the second loop of `link_struct_like` finds under a name is the linked form of a field given
+    under that name, read with the type of the component of that name -/
+theorem C07_given_denotes : ∀ (fs : List SField) (ms : List VMember) (given : List (Option String × LVal)),
+    linkGiven ms fs = some given → ∀ n lv, findGiven given n = some lv →
+    ∃ v gty, SField.mk (some n) v ∈ fs ∧ findMember ms (some n) = some gty ∧ Denotes gty v (absL lv)
+  | [], ms, given, h, n, lv, hf => by
+    simp only [linkGiven] at h; cases h; simp [findGiven] at hf
+  | .mk n' v' :: rest, ms, given, h, n, lv, hf => by
+    simp only [linkGiven] at h
+    split at h
+    · rename_i mty hm
+      split at h
+      · rename_i l r hl hr
+        cases h
+        simp only [findGiven] at hf
+        split at hf
+        · rename_i heq
+          cases hf
+          have e : n' = some n := by simpa using heq
+          subst e
+          exact ⟨v', mty, List.mem_cons_self, hm, C07_composite_denotes v' mty lv hl⟩
+        · obtain ⟨v, gty, hmem, hty, hd⟩ := C07_given_denotes rest ms r hr n lv hf
+          exact ⟨v, gty, List.mem_cons_of_mem _ hmem, hty, hd⟩
+      · cases h
+    · cases h
+end
+
+/-- with pairwise distinct component names (X.680 §25.10) "the component called n" is the member
+    itself, so a given value is read with its own member's type -/
+theorem C07_component_of_name (pre post : List VMember) (n : String) (t : VTy) (d : Option LVal)
+    (h : ∀ m, m ∈ pre → m.name ≠ n) : findMember (pre ++ .mk n t d :: post) (some n) = some t :=
+  findMember_self pre n t d post h
+
+/-- a linked SEQUENCE / SET value has exactly one entry per component, in declaration order, whatever
+    the order of the fields in the notation -/
+theorem C07_struct_one_entry_per_component (given : List (Option String × LVal)) :
+    ∀ (ms : List VMember) (out : List LField), assemble given ms = some out →
+      out.map (fun f => match f with | .mk n _ => n) = ms.map VMember.name
+  | [], out, h => by simp only [assemble] at h; cases h; rfl
+  | .mk n t d :: ms, out, h => by
+    simp only [assemble] at h
+    split at h
+    · rename_i v rest hv hr
+      cases h
+      simp [VMember.name, C07_struct_one_entry_per_component given ms rest hr]
+    · cases h
+
+/-- a given field wins over the DEFAULT; without one the DEFAULT is taken; without either the value is
+    rejected (reported, never invented) -/
+theorem C07_default_only_when_absent (given : List (Option String × LVal)) (n : String) (t : VTy) (d : Option LVal)
+    (ms : List VMember) (out : List LField) (h : assemble given (.mk n t d :: ms) = some out) :
+    ∃ v rest, out = .mk n v :: rest ∧
+      ((∃ g, findGiven given n = some g ∧ v = g) ∨ (findGiven given n = none ∧ d = some v)) := by
+  simp only [assemble] at h
+  split at h
+  · rename_i v rest hv hr
+    cases h
+    refine ⟨v, rest, rfl, ?_⟩
+    cases hf : findGiven given n with
+    | some g => left; simp [hf, Option.orElse] at hv; exact ⟨g, rfl, hv.symm⟩
+    | none => right; simp [hf, Option.orElse] at hv; exact ⟨rfl, hv⟩
+  · cases h
+
+/-- a required component without a value is rejected -/
+theorem C07_missing_required_rejected (given : List (Option String × LVal)) (n : String) (t : VTy) (ms : List VMember)
+    (h : findGiven given n = none) : assemble given (.mk n t none :: ms) = none := by
+  simp [assemble, h, Option.orElse]
+
+/-- outside the domain (X.680 forbids it): of two fields given under one name the first is taken, silently -/
+theorem C07_duplicate_field_first_wins :
+    (link (.seq [.mk "a" .leaf none]) (.braces [.mk (some "a") (.atom (.int 1)), .mk (some "a") (.atom (.int 2))])).map absL
+      = some (.record [.mk "a" (.atom (.int 1))]) := by
+  simp [link, strip, linkGiven, findMember, assemble, findGiven, wrap, absL, absFields, Option.orElse]
+
+/-- non-vacuity: `{ z { q FALSE, p 2 }, y FALSE }` under
+    `Sq ::= SEQUENCE { x INTEGER DEFAULT 7, y BOOLEAN, z Inner }`, `Inner ::= SEQUENCE { p INTEGER, q BOOLEAN DEFAULT TRUE }`
+    links (fields out of order, one DEFAULT filled in, through two type references) -/
+example :
+    let inner : VTy := .named "Inner" (.seq [.mk "p" .leaf none, .mk "q" .leaf (some (.atom (.bool true)))])
+    let sq : VTy := .named "Sq" (.seq [.mk "x" .leaf (some (.atom (.int 7))), .mk "y" .leaf none, .mk "z" inner none])
+    (link sq (.braces [.mk (some "z") (.braces [.mk (some "q") (.atom (.bool false)), .mk (some "p") (.atom (.int 2))]),
+        .mk (some "y") (.atom (.bool false))])).map absL
+      = some (.record [.mk "x" (.atom (.int 7)), .mk "y" (.atom (.bool false)),
+          .mk "z" (.record [.mk "p" (.atom (.int 2)), .mk "q" (.atom (.bool false))])]) := by
+  simp [link, strip, linkGiven, findMember, assemble, findGiven, wrap, absL, absFields, Option.orElse]
+
+end Composite
 
 end Props.C07
